@@ -72,7 +72,7 @@ def _read(self, op):
             elif how == 'exists':
                 got = cls.exists(**kw); want = lambda: found() is not None
             elif how == 'select':
-                l = list(cls.select(**kw))
+                l = list(self._sel(cls, cls.select(**kw)))
                 got = None if not l else oid_of(l[0], 'bypk')
                 if len(l) > 1: self.report('read', 'select_by_pk_returned_many', {'op': op, 'n': len(l)})
             else: raise ValueError(how)
@@ -94,12 +94,12 @@ def _read(self, op):
                     m = matches()
                     return sorted(m)[0] if m else None
             elif how == 'exists': got, want = cls.exists(**key), lambda: bool(matches())
-            elif how == 'select': got, want = set(oid_of(x, 'bykey') for x in cls.select(**key)), matches
+            elif how == 'select': got, want = set(oid_of(x, 'bykey') for x in self._sel(cls, cls.select(**key))), matches
             elif how == 'count': got, want = cls.select(**key).count(), lambda: len(matches())
             else: raise ValueError(how)
         elif kind == 'selectall':
             cls = self.cls[op['ent']]
-            got = set(oid_of(x, 'selectall') for x in cls.select())
+            got = set(oid_of(x, 'selectall') for x in self._sel(cls, cls.select()))
             want = lambda: set(self.working.of_entity(op['ent']))
         elif kind == 'count':
             cls = self.cls[op['ent']]
@@ -110,7 +110,7 @@ def _read(self, op):
             attr, cmp_, val = op['attr'], op['cmp'], op['val']
             v = val   # pony resolves external names through the calling frame
             f = eval('lambda x: x.%s %s v' % (attr, cmp_))
-            got = set(oid_of(x, 'selectcmp') for x in cls.select(f))
+            got = set(oid_of(x, 'selectcmp') for x in self._sel(cls, cls.select(f)))
             def want():
                 out = set()
                 for cand in self.working.of_entity(op['ent']):
@@ -160,3 +160,13 @@ def _read(self, op):
             return 'raised_session_lost'
         return 'raised_unexpected'
     return 'read_ok'
+
+
+def _sel(self, cls, query):
+    """loading-strategy hook (C23): under strategy 'prefetch' every entity query prefetches all relationships"""
+    if self.strategy == 'prefetch':
+        attrs = [a for a in cls._attrs_ if a.reverse is not None]
+        if attrs:
+            self.c('strategy.prefetch_applied')
+            return query.prefetch(*attrs)
+    return query
